@@ -16,7 +16,7 @@ LEVEL_TEXT = ("Static structural proof of necessary conditions, not of the prope
               "format_error* site in the closure binds to its message function through the decorator wrapper; no "
               "issue list returned inside the validator closure is discarded. Correctness of the rule predicates "
               "themselves (valid => no error; one fault => that code) is NOT decided.")
-LEVEL_EXTRA = 'Added after the seeded evaluation: (R1.4) the delimiter scan decides on the blank-stripped token text; (R1.5) no early exit skips a string-level check. (R1.6) no first/last-element access on a possibly empty list in the validators (validation reports, it does not raise IndexError). (R1.7) every setting a validator constructor stores on the object is read somewhere (one frozen exception).'
+LEVEL_EXTRA = 'Added after the seeded evaluation: (R1.4) the delimiter scan decides on the blank-stripped token text; (R1.5) no early exit skips a string-level check. (R1.6) no first/last-element access on a possibly empty list in the validators (validation reports, it does not raise IndexError). (R1.7) every setting a validator constructor stores on the object is read somewhere (one frozen exception). (R1.8) a def-tag search over a whole annotation in the validators is recursive; R1.3 also reports an issue accumulator that is plainly re-assigned before it was read.'
 
 
 def signature_rule(ctx, rule, funcs, floor_sites):
@@ -131,3 +131,33 @@ def run(ctx):
     ctx.rule("R1.4", "the delimiter scan decides on the blank-stripped form of the accumulated text (empty-delimiter rule)")
     from rules.c04 import delimiter_scan_rule
     delimiter_scan_rule(ctx, "R1.4")
+
+    # ---------------- R1.8: definitions used anywhere in the annotation are checked, not only at its top level
+    ctx.rule("R1.8", "a def-tag search over a whole annotation (a parameter) in the validators is recursive")
+    from sa.dataflow import ReachingDefs as _RD1
+    n_rec = 0
+    for f in prog.functions.values():
+        if not f.module.name.startswith("hed.validator"):
+            continue
+        params = set(f.params())
+        rd1 = None
+        for c in walk_no_nested(f.node):
+            if not (isinstance(c, ast.Call) and isinstance(c.func, ast.Attribute) and c.func.attr in ("find_def_tags", "find_tags")):
+                continue
+            recv = c.func.value
+            whole = isinstance(recv, ast.Name) and recv.id in params
+            if not whole and isinstance(recv, ast.Name):
+                rd1 = rd1 or _RD1(f)
+                ds = rd1.at(c, recv.id) or []
+                whole = bool(ds) and all(d.kind == "assign" and isinstance(d.value, ast.Call) and call_name(d.value) == "HedString" for d in ds)
+            if not whole:
+                continue
+            n_rec += 1
+            ctx.saw(f)
+            rec = [kw.value for kw in c.keywords if kw.arg == "recursive"]
+            ok = bool(rec) and isinstance(rec[0], ast.Constant) and rec[0].value is True
+            ctx.check(ok, "R1.8", f.qualname, c, loc(f, c),
+                      "the search for Def/Def-expand (or Definition) tags over the whole annotation is not recursive: a faulty Def inside a "
+                      "group — `(Def/Undeclared, Blue)` — is never looked at, so the violation is reported only at the top level",
+                      desc="%s: whole-annotation search is recursive" % f.short)
+    ctx.floor("R1.8", "whole-annotation def searches in the validators", n_rec, 2)
